@@ -360,7 +360,7 @@ class NeedGen(object):
 
 class CHECK(core.Check):
     PROPERTY = "C14"
-    LEAN_MODULES = ["IofloModel.Props.C14"]
+    LEAN_MODULES = ["IofloModel.Props.C14", "IofloModel.Props.C14Flow"]
     GENERATED = True
     ENGINE = "worklist"
     N_QUICK = 420
@@ -389,8 +389,14 @@ class CHECK(core.Check):
                "a build that does not return within the wall-clock limit (2 s for the tiny link scripts, 6 s for scripts of "
                "< 100 lines that otherwise build in < 50 ms) is taken as non-termination",
                "translator: Python's ast for the extraction, the run-time module namespaces for what `from x import *` binds"]
-    PARTIAL = ["the property as a whole is NOT proved: only the loops of Model/Worklist.lean, the generated message/name tables "
-               "and the exception table of Builder.build are; everything else in building.py is searched, not proved",
+    PARTIAL = ["the property as a whole is NOT proved. Proved: the loops of Model/Worklist.lean, the generated message/name tables, "
+               "the exception table of Builder.build, and — over ALL of building.py, from a table regenerated on every run — "
+               "that no class other than ParseError / ValueError can propagate to Builder.build from any raise statement or "
+               "`tokens[…]` read through the calls inside building.py (C14_exception_certificate_closed, "
+               "C14_only_script_errors_leave_build), and that every attribute read from a caught exception exists "
+               "(C14_exception_attributes_exist). Not proved, searched: exceptions raised by other modules and by builtin "
+               "operations other than `tokens[…]` (other subscripts, int(), attribute access), and termination outside the "
+               "three loops",
                "C14_under_descent_counterexample (D6), C14_over_climb_counterexample (D64): repaired by "
                "fixes/D06-under-loop-check.patch, fixes/D64-over-loop-check.patch (C14_repaired_loops_terminate)",
                "C14_clone_worklist_counterexample (D5: a moot framer cloning itself, directly or through others — the build "
@@ -406,7 +412,10 @@ class CHECK(core.Check):
                   "repaired loops end on every input (C14_repaired_loops_terminate, C14_repaired_clone_worklist_terminates); every message construction of the "
                   "builder-side modules gets as many values as it consumes and no function loads an unbound name "
                   "(C14_error_messages_well_formed, C14_no_unbound_names, over the table regenerated from the tree on every run: about 500 sites, the count is in the evidence); "
-                  "the exception table of Builder.build. Not proved: that no other statement of building.py raises an internal "
+                  "the exception table of Builder.build; the exception flow of building.py (every raise site, tokens[] read and internal "
+                  "call with its enclosing handlers, regenerated per run: only ParseError and ValueError leave Builder.build — "
+                  "C14_only_script_errors_leave_build; C16_commands_nonempty discharges the two tokens[0] reads of the read "
+                  "loop). Not proved: that no other statement of building.py raises an internal "
                   "error — that part is a search (mutation fuzzing) with the outcome classes as oracle.")
     LEVEL_NOTE = ("Trusted: Lean kernel; propext, Classical.choice, Quot.sound; the translator (ast extraction); the transcription "
                   "of the three loops, tied to the code only through scripts built under a wall-clock limit; the search part is "
@@ -421,6 +430,9 @@ class CHECK(core.Check):
         sys.path.insert(0, os.path.join(core.VERIF, "harness"))
         from translate import errsites
         fmt, unbound = errsites.write(core.REPO, core.VERIF)
+        from translate import raisesites
+        d = raisesites.write(core.REPO, core.VERIF)
+        self._flow = (len(d["funcs"]), len(d["raises"]), len(d["calls"]), len(d["attrs"]), d["cert"]["Builder.build"])
         self._table = (len(fmt), sum(1 for r in fmt if not errsites.site_ok(r[3], r[4], r[5], r[6])), len(unbound))
 
     def variant(self):
@@ -437,7 +449,9 @@ class CHECK(core.Check):
         t = getattr(self, "_table", (0, 0, 0))
         return {"tree_variant": "over loop check %s, under loop check %s, clone loop check %s" % tuple(
                     "present" if x else "absent" for x in (o, u, c)),
-                "generated_table": {"format_sites": t[0], "mismatching": t[1], "unbound_names": t[2]}}
+                "generated_table": {"format_sites": t[0], "mismatching": t[1], "unbound_names": t[2]},
+                "exception_flow_table": dict(zip(("functions", "raise_sites", "call_sites", "exception_attribute_reads",
+                                                  "leaves_Builder.build"), getattr(self, "_flow", ())))}
 
     # ---- cases
     def exhaustive(self, tier):
